@@ -64,6 +64,14 @@ pub fn check(t: &Trace<'_>, out: &mut CaseOut) -> bool {
             out.violations.push(viol("C12", "C12/negotiated-values-left-over", format!("conn {}: after connect the session uses Maximum Packet Size {:?}, Maximum QoS {:?}, keep-alive {} ms; this CONNACK says {:?}, {:?}, {} ms", conn, a.maximum_packet_size, a.max_qos, a.keepalive_ms, want_mps, want_qos, want_ka)));
         }
         out.count("negotiated_values_compared", 1);
+        // a broker that reports no session: nothing of the old one is left to (re)send or to
+        // hold a slot of the new send window
+        if matches!(cinfo.connack, Some((false, 0, _))) {
+            out.count("fresh_session_states_examined", 1);
+            if !a.tx.retained.is_empty() || !a.tx.release.is_empty() || !a.tx.control.is_empty() || a.send_quota != a.max_send_quota || !a.pending_server_packet_ids.is_empty() {
+                out.violations.push(viol("C12", "C12/fresh-session-carries-old-state", format!("conn {}: the CONNACK reports no session, yet after connect() the session holds retained {:?}, PUBRELs {:?}, owed control packets {:?}, inbound QoS 2 identifiers {:?}, send quota {}/{}", conn, a.tx.retained.iter().map(|e| e.packet_id).collect::<Vec<_>>(), a.tx.release.iter().map(|e| e.packet_id).collect::<Vec<_>>(), a.tx.control.iter().map(|e| (e.kind, e.packet_id)).collect::<Vec<_>>(), a.pending_server_packet_ids.as_slice(), a.send_quota, a.max_send_quota)));
+            }
+        }
     }
     match &cop.outcome {
         Outcome::Ok(_) => {}
